@@ -111,6 +111,12 @@ static void apply_history(pl::Instance &I, const Hist &h) {
     if(h.order == 0) { mode(); drum(); bank(); opn2_rt_patchChange(d, (OPN2_UInt8)h.ch, (OPN2_UInt8)h.program); }
     else if(h.order == 1) { mode(); drum(); opn2_rt_patchChange(d, (OPN2_UInt8)h.ch, (OPN2_UInt8)h.program); bank(); }
     else if(h.order == 2) { bank(); opn2_rt_patchChange(d, (OPN2_UInt8)h.ch, (OPN2_UInt8)h.program); mode(); }
+    else if(h.order == 4) { // bank select in GM mode (or the GS drum part in GS mode), then XG System On, then the note with no further bank select
+        uint8_t ch = (uint8_t)h.ch;
+        if(h.drumpart) { uint8_t m[] = {0xF0, 0x41, 0x10, 0x42, 0x12, 0x40, 0x00, 0x7F, 0x00, 0x41, 0xF7}; opn2_rt_systemExclusive(d, m, sizeof m); drum(); }
+        else { uint8_t m[] = {0xF0, 0x7E, 0x7F, 0x09, 0x01, 0xF7}; opn2_rt_systemExclusive(d, m, sizeof m); }
+        bank(); opn2_rt_patchChange(d, ch, (OPN2_UInt8)h.program);
+        { uint8_t m[] = {0xF0, 0x43, 0x10, 0x4C, 0x00, 0x00, 0x7E, 0x00, 0xF7}; opn2_rt_systemExclusive(d, m, sizeof m); } }
     else { // the mode message arrives between the bank MSB (sent in GS mode) and the bank LSB
         uint8_t ch = (uint8_t)h.ch; { uint8_t m[] = {0xF0, 0x41, 0x10, 0x42, 0x12, 0x40, 0x00, 0x7F, 0x00, 0x41, 0xF7}; opn2_rt_systemExclusive(d, m, sizeof m); }
         if(h.path == 1) opn2_rt_bankChangeMSB(d, ch, (OPN2_UInt8)h.msb); else opn2_rt_controllerChange(d, ch, 0, (OPN2_UInt8)h.msb);
@@ -121,7 +127,7 @@ static void apply_history(pl::Instance &I, const Hist &h) {
 
 static std::string hist_str(const Hist &h) {
     static const char *M[] = {"GM", "GS", "XG"}; static const char *P[] = {"CC0/CC32", "rt_bankChangeMSB/LSB", "rt_bankChange"};
-    char b[200]; snprintf(b, sizeof b, "mode %s%s, channel %d, bank %d/%d via %s, program %d (%s), key %d", M[h.mode], h.drumpart ? " + GS drum part" : "", h.ch, h.msb, h.lsb, P[h.path], h.program, h.order == 3 ? "bank MSB in GS mode, then the mode message, then bank LSB and program" : h.order == 2 ? "bank and program selected in XG mode before the mode message" : h.order ? "program before bank" : "bank before program", h.key);
+    char b[200]; snprintf(b, sizeof b, "mode %s%s, channel %d, bank %d/%d via %s, program %d (%s), key %d", M[h.mode], h.drumpart ? " + GS drum part" : "", h.ch, h.msb, h.lsb, P[h.path], h.program, h.order == 4 ? "bank and program selected in GM mode (drum part: in GS mode), then XG System On" : h.order == 3 ? "bank MSB in GS mode, then the mode message, then bank LSB and program" : h.order == 2 ? "bank and program selected in XG mode before the mode message" : h.order ? "program before bank" : "bank before program", h.key);
     return b;
 }
 static std::string layout_str(const Layout &L) { std::string r = "banks:"; for(int b = 0; b < NB; b++) if(L.present & (1u << b)) { char t[64]; snprintf(t, sizeof t, " %s%d%s%s", BANKS[b].perc ? "P" : "M", b == 6 ? 133 : b == 7 ? 128 : bank_number(b), (L.blankA >> b) & 1 ? "[A blank]" : "", (L.blankB >> b) & 1 ? "[B blank]" : ""); r += t; } return r; }
@@ -178,6 +184,10 @@ int main(int argc, char **argv) {
     // (final mode GM is left out here: the library also honours MSB 126/127 written while in GM mode, which the statement neither demands nor forbids)
     for(int mode : {1, 2}) for(int chs = 0; chs < 2; chs++) for(int path = 0; path < 2; path++) for(int msb : {0, 1, 126, 127}) for(int lsb = 0; lsb < 2; lsb++) for(int prog : {0, 5}) for(int key : {35, 60}) {
         Hist h; h.mode = mode; h.ch = chs == 0 ? 0 : 3; h.msb = msb; h.lsb = lsb; h.program = prog; h.key = key; h.path = path; h.order = 3; h.drumpart = false; hs.push_back(h); }
+    // final mode XG reached from GM (bank select made there) or from GS (drum part made there)
+    for(int dp = 0; dp < 2; dp++) for(int path = 0; path < 3; path++) for(int msb : {0, 1, 126, 127}) for(int lsb = 0; lsb < 2; lsb++) for(int prog : {0, 5}) for(int key : {35, 60}) {
+        if(dp && (msb >= 126)) continue;
+        Hist h; h.mode = 2; h.ch = 3; h.msb = msb; h.lsb = lsb; h.program = prog; h.key = key; h.path = path; h.order = 4; h.drumpart = dp != 0; hs.push_back(h); }
     static std::vector<Hist> HS; HS = hs;
     std::vector<en::Family> fams;
     { unsigned nblank = thorough ? 128 : 128; (void)nblank;
